@@ -848,6 +848,19 @@ def run_sampler_case(case):
     C["construct_data_calls"] = len(trace.get("data_call", "construct"))
     for k in range(case["calls"]):
         trace.phase = k
+        if k >= 1 and case.get("param_change") and getattr(b, "param", None) is not None and case.get("param_mode") != "joined":
+            # the learnable Parameter gets new values between two forward() calls: in place (what an optimizer does) or by
+            # re-binding its storage (`.data = ...`, what a reset / dtype-preserving reload does); the next loss has to use them
+            pt = b.param.as_tensor
+            gnew = torch.Generator().manual_seed(int(case["seed"]) + 17 * k)
+            new = pt.detach().clone() + 0.4 * torch.randn(pt.shape, generator=gnew)
+            how = case["param_change"] if case["param_change"] != "both" else ("rebind" if k % 2 else "inplace")
+            with torch.no_grad():
+                if how == "rebind":
+                    pt.data = new
+                else:
+                    pt.copy_(new)
+            C["parameter_changes_" + how] = C.get("parameter_changes_" + how, 0) + 1
         try:
             if case["kind"] == "pideeponet":
                 loss = b.cond(iteration=k)
